@@ -82,11 +82,11 @@ class SendingMessage:
         annotations = annotations or {}
         annotations_size = sum([8 + _nbytes(v) for v in annotations.values()])
         flags &= ~FLAGS_COMPRESSED
-        if config.COMPRESSION and len(payload) > 100:
+        if config.COMPRESSION and _nbytes(payload) > 100:
             payload = zlib.compress(payload, 4)
             flags |= FLAGS_COMPRESSED
         self.flags = flags
-        total_size = len(payload) + annotations_size
+        total_size = _nbytes(payload) + annotations_size
         if total_size > config.MAX_MESSAGE_SIZE:
             raise errors.ProtocolError("message too large ({:d}, max={:d})".format(total_size, config.MAX_MESSAGE_SIZE))
         if current_context.correlation_id:
@@ -95,7 +95,7 @@ class SendingMessage:
         else:
             self.corr_id = _empty_correlation_id
         header_data = struct.pack(_header_format, b"PYRO", PROTOCOL_VERSION, msgtype, serializer_id, flags, seq,
-                                  len(payload), annotations_size, self.corr_id, 0, _magic_number)
+                                  _nbytes(payload), annotations_size, self.corr_id, 0, _magic_number)
         annotation_data = []
         for k, v in annotations.items():
             if len(k) != 4:
